@@ -14,10 +14,12 @@ Note(cond, seq, tag) == IF cond \/ NTag(seq, tag) >= 60 THEN seq ELSE Append(seq
 TInit == /\ l = 1 /\ viol = <<>> /\ drift = <<>> /\ nchk = 0 /\ nfail = 0
          /\ plan = <<>> /\ step = 1 /\ errs = <<>> /\ zero = {} /\ result = "trace"
 PlanOf(e) == [fp |-> {e.fp[k] : k \in 1..Len(e.fp)}, nameFail |-> e.nameFail, threads |-> e.threads, exited |-> e.exited, rsp0 |-> e.rsp0,
-              prinNotRef |-> e.prinNotRef, dsoFail |-> e.dsoFail, handlesFail |-> FALSE, auxvComplete |-> e.auxvComplete]
+              prinNotRef |-> e.prinNotRef, dsoFail |-> e.dsoFail, handlesFail |-> FALSE, auxvComplete |-> e.auxvComplete,
+              unreadable |-> IF "unreadable" \in DOMAIN e THEN {e.unreadable[k] : k \in 1..Len(e.unreadable)} ELSE {}]
 AllTypes == {3, 4, 5, 6, 7, 16, 1197932547, 1197932548, 1197932549, 1197932550, 1197932551, 1197932552, 1197932553, 1197932554,
              1299841027, 24, 12, 1299841028}
 DsoType == 1197932554
+TypeOf == [cpuinfo |-> 1197932547, release |-> 1197932549, cmdline |-> 1197932550, environ |-> 1197932551, auxv |-> 1197932552, limits |-> 1299841027]
 Dump == /\ E.ev = "c11"
         /\ LET p == PlanOf(E)
                want == ErrSeq(p)
@@ -25,7 +27,7 @@ Dump == /\ E.ev = "c11"
                v1 == Note(E.outcome = "ok", viol, "C11-best-effort-failure-made-the-dump-fail")
                v2 == Note(E.outcome = "ok" => E.wellFormed, v1, "C11-soft-error-stream-missing-or-malformed")
                v3 == Note(E.outcome = "ok" /\ E.wellFormed => BagOf(E.paths) = BagOf(want), v2, "C11-reported-failures-differ")
-               v4 == Note(E.outcome = "ok" => present = (IF p.dsoFail THEN AllTypes \ {DsoType} ELSE AllTypes), v3, "C11-other-stream-missing")
+               v4 == Note(E.outcome = "ok" => present = (AllTypes \ ((IF p.dsoFail THEN {DsoType} ELSE {}) \cup {TypeOf[f] : f \in p.unreadable})), v3, "C11-other-stream-missing")
            IN /\ viol' = v4
               /\ drift' = Note(E.outcome = "ok" /\ E.wellFormed => E.paths = want, drift, "order-of-soft-errors")
               /\ nfail' = nfail + (IF want # <<>> THEN 1 ELSE 0)
